@@ -11,6 +11,7 @@ from vlib import pgen
 from vlib.harness import SubCheck, must, require
 
 PROPERTY_ID = "C11"
+TECHNIQUE = 'round-trip property-based testing (Hypothesis) over dict / JSON text / files / printed text; coverage-guided fuzzing (Atheris) of print->parse in the thorough tier'
 RULE = (
     "Pauli terms / sums (simplified and unsimplified) with int, float and complex coefficients "
     "(|c| from 1e-7 to 1e22, negative, -0.0, zero imaginary part, exponent notation), constants, the "
